@@ -13,7 +13,8 @@ finished.
 
 What is proved: the bound for the `while` construct (all f, n, schedules), that the bound FAILS for
 the `if` construct of the pinned source (a decided 10-step witness with one spurious wake-up,
-f = 1, n = 2), and work conservation for both constructs.  What is not proved here: that dsh.c
+f = 1, n = 2), that it holds for both constructs on executions without spurious wake-ups, and work
+conservation for both constructs.  What is not proved here: that dsh.c
 refines the LTS (that is the trace correspondence of `checks/c04.py`), and anything about real
 pthread scheduling.
 
@@ -57,6 +58,20 @@ theorem if_variant_exceeds :
   | some s =>
     rw [hr] at h; simp at h
     exact ⟨s, exec_of_run hr, by decide, h.1, h.2⟩
+
+/-- ... and ONLY a spurious wake-up can break the bound: an execution of EITHER construct that
+    contains no spurious wake-up keeps at most `fanout` connections in flight.  (This is why the open
+    finding's signature is restricted to schedules that contain a spurious wake-up: an excess without
+    one would be a different, new defect.) -/
+theorem bound_without_spurious {v : Variant} {f n : Nat} {ls : List Label} {s : St}
+    (he : Exec (init v f n) ls s) (hns : ∀ l ∈ ls, l.spurious = false) : inflight s ≤ f := by
+  have hb := boundNS_exec (inv_init v f n) (boundNS_init v f n) he hns
+  have hf := (exec_params he).2.1
+  simp [init] at hf
+  have h2 := (inv_exec (inv_init v f n) he).cnt
+  have h3 := flying_le_counted s.ws
+  have := hb.le
+  unfold inflight; omega
 
 /-- the same ten labels are not an execution of the repaired construct: after the spurious wake-up
     the dispatcher waits again -/
